@@ -233,7 +233,7 @@ pub fn check_ttl(h: &Hist, want: &[&str]) -> TtlOutcome {
                         last_fault_now = last_fault_now.max(o.ret_now);
                         faults_off_seen = true;
                     }
-                    (Op::StallSelf { ns, .. }, _) => {
+                    (Op::StallSelf { ns, .. }, _) | (Op::StallWorker { ns, .. }, _) => {
                         last_fault_now = last_fault_now.max(o.ret_now + ns);
                     }
                     (Op::Get { k, .. }, Res::Got(g)) => {
